@@ -413,8 +413,10 @@ class OpsGen(History):
         keys["aes_gen"] = self.op(f"genkey @{k} 1080 3={hx(self.new_label())} 161={U(16)} 104=01 105=01 108=01 10a=01"); self.minted += 1
         if rsa:
             keys["rsa"] = self.op(f"genpair @{k} 0 121={U(1024)} 122=010001 3={hx(self.new_label())} 10a=01 104=01 106=01 / 3={hx(self.new_label())} 108=01 105=01 107=01 2=01"); self.minted += 2
+            self.op(f"getattr @{k} @{keys['rsa']}.1 120:300 122:300")        # the crypto monitor learns the public values of the generated pair
         if ec:
             keys["ec"] = self.op(f"genpair @{k} 1040 180={P256} 3={hx(self.new_label())} 10a=01 / 3={hx(self.new_label())} 108=01 2=01"); self.minted += 2
+            self.op(f"getattr @{k} @{keys['ec']} 181:300")
             keys["ed"] = self.op(f"genpair @{k} 1055 180={ED25519} 3={hx(self.new_label())} 10a=01 / 3={hx(self.new_label())} 108=01 2=01"); self.minted += 2
         return keys
 
@@ -1203,9 +1205,13 @@ def crypto_history(seed, nops=40):
             h.op(f"encinit @{k} {mech} @{key}")
             outs = []
             if rng.random() < 0.4:
+                for _ in range(rng.choice([0, 0, 1])): h.op(f"enc @{k} {ptx} {rng.choice(['n', '0', '3'])}")
                 outs.append(h.op(f"enc @{k} {ptx} 600"))
             else:
-                for piece in splits(rng, ptx): outs.append(h.op(f"encupd @{k} {piece} 600"))
+                for piece in splits(rng, ptx):
+                    if rng.random() < 0.15 and piece not in (".", ""): h.op(f"encupd @{k} {piece} {rng.choice(['n', '0'])}")
+                    outs.append(h.op(f"encupd @{k} {piece} 600"))
+                for _ in range(rng.choice([0, 0, 1])): h.op(f"encfinal @{k} n")
                 outs.append(h.op(f"encfinal @{k} 600"))
             recorded.append(("enc", mech, key, ptx, outs))
         elif r < 0.55 and recorded:      # decrypt a ciphertext produced by the reference-compatible encrypt: rebuilt from the SAME plaintext by encrypting again is not possible
@@ -1238,9 +1244,11 @@ def crypto_history(seed, nops=40):
                 mech = "1041"; key = eprv; data = rb(rng.choice([20, 32, 32, 48]))
             h.op(f"siginit @{k} {mech} @{key}")
             if rng.random() < 0.5 or mech in ("1", "1041"):
+                for _ in range(rng.choice([0, 0, 1, 2])): h.op(f"sign @{k} {data} {rng.choice(['n', '0', '5', '19'])}")
                 so = h.op(f"sign @{k} {data} 600")
             else:
                 for piece in splits(rng, data): h.op(f"sigupd @{k} {piece}")
+                for _ in range(rng.choice([0, 0, 1, 2])): h.op(f"sigfinal @{k} {rng.choice(['n', '0', '5', '19'])}")
                 so = h.op(f"sigfinal @{k} 600")
             # verification of the token's own signature: untouched, data changed, signature changed
             vkey = {rprv: rpub, eprv: epub}.get(key, key)
@@ -1251,9 +1259,12 @@ def crypto_history(seed, nops=40):
         elif r < 0.9:       # digests
             mech = rng.choice(["220", "255", "250", "260", "270"]); data = rb(rng.choice(lens + [200]))
             h.op(f"diginit @{k} {mech}")
-            if rng.random() < 0.4: h.op(f"digest @{k} {data} 600")
+            if rng.random() < 0.4:
+                for _ in range(rng.choice([0, 0, 1, 2])): h.op(f"digest @{k} {data} {rng.choice(['n', '0', '5', '19'])}")
+                h.op(f"digest @{k} {data} 600")
             else:
                 for piece in splits(rng, data): h.op(f"digupd @{k} {piece}")
+                for _ in range(rng.choice([0, 0, 1, 2])): h.op(f"digfinal @{k} {rng.choice(['n', '0', '5', '19'])}")
                 h.op(f"digfinal @{k} 600")
         else:               # the token verifies / decrypts what a foreign implementation made: a MAC computed over data by python (HMAC only)
             import hmac as _h, hashlib as _hl
